@@ -1,6 +1,8 @@
 package main
 
 import (
+	"github.com/go-i2p/common/encrypted_leaseset"
+	"go.step.sm/crypto/x25519"
 	"bytes"
 	"fmt"
 	"reflect"
@@ -126,6 +128,9 @@ func readOnlyCalls(v interface{}) []string {
 			names = append(names, m.Name+"@self")
 		}
 	}
+	if _, ok := c18DecryptArgs(v); ok {
+		names = append(names, "DecryptInnerData@key", "DecryptInnerData@wrongkey")
+	}
 	return names
 }
 
@@ -143,12 +148,42 @@ func selfArg(rv reflect.Value, want reflect.Type) reflect.Value {
 	return reflect.Value{}
 }
 
+// read-only operations that take arguments the harness must supply: decrypting an EncryptedLeaseSet
+// with the matching (and with another) key asks a question of the value, it does not change it
+var c18Decrypt = map[*encrypted_leaseset.EncryptedLeaseSet][2]interface{}{} // value -> {cookie, private key}
+
+func c18DecryptArgs(v interface{}) ([2]interface{}, bool) {
+	p, ok := v.(*encrypted_leaseset.EncryptedLeaseSet)
+	if !ok {
+		return [2]interface{}{}, false
+	}
+	a, ok := c18Decrypt[p]
+	return a, ok
+}
+
 func callRendered(v interface{}, name string) (out string) {
 	defer func() {
 		if r := recover(); r != nil {
 			out = "panic"
 		}
 	}()
+	if name == "DecryptInnerData@key" || name == "DecryptInnerData@wrongkey" {
+		a, _ := c18DecryptArgs(v)
+		key := a[1]
+		if name == "DecryptInnerData@wrongkey" {
+			_, wrong, _ := x25519.GenerateKey(detRand{&Rng{99}})
+			key = wrong
+		}
+		res := reflect.ValueOf(v).MethodByName("DecryptInnerData").Call([]reflect.Value{reflect.ValueOf(a[0]), reflect.ValueOf(key)})
+		var sb strings.Builder
+		if !res[0].IsNil() {
+			b, _ := res[0].Interface().(*lease_set2.LeaseSet2).Bytes()
+			sb.WriteString(hx(b))
+		}
+		sb.WriteByte('|')
+		sb.WriteString(fmt.Sprint(res[1].IsNil()))
+		return sb.String()
+	}
 	var args []reflect.Value
 	if strings.HasSuffix(name, "@self") {
 		name = strings.TrimSuffix(name, "@self")
@@ -255,6 +290,28 @@ func runC18(c *Ctx) {
 			}
 		}
 	}
+	// an EncryptedLeaseSet whose inner data really is an encrypted LeaseSet2, with the key to it
+	for k := 0; k < 2; k++ {
+		l := genLeaseSet2(r)
+		ls, _, err := lease_set2.ReadLeaseSet2(l.Encode())
+		if err != nil {
+			continue
+		}
+		pub, priv, _ := x25519.GenerateKey(detRand{r})
+		var cookie [32]byte
+		copy(cookie[:], r.Bytes(32))
+		enc, eerr := encrypted_leaseset.EncryptInnerLeaseSet2(&ls, cookie, pub)
+		if eerr != nil {
+			continue
+		}
+		ek := genEd(r)
+		els, nerr := encrypted_leaseset.NewEncryptedLeaseSet(7, cp(ek.pub), 1, 1, 0, nil, cp(enc), stdPriv(ek))
+		if nerr != nil {
+			continue
+		}
+		c18Decrypt[els] = [2]interface{}{cookie[:], priv}
+		values = append(values, shared{"NewEncryptedLeaseSet(encrypted LeaseSet2)", els, enc})
+	}
 	// constructed values too
 	if m, err := data.GoMapToMapping(map[string]string{"b": "1", "a": "2", "z": ""}); err == nil {
 		values = append(values, shared{"GoMapToMapping", m, nil})
@@ -313,7 +370,7 @@ func runC18(c *Ctx) {
 		var hot []string
 		for _, name := range calls {
 			switch name {
-			case "Bytes", "Data", "Verify", "VerifySignature", "RawBytes", "Hash", "IdentHash", "Base32Address", "Base64":
+			case "Bytes", "Data", "Verify", "VerifySignature", "RawBytes", "Hash", "IdentHash", "Base32Address", "Base64", "DecryptInnerData@key", "DecryptInnerData@wrongkey":
 				if !clockDependent(name) {
 					hot = append(hot, name)
 				}
